@@ -14,7 +14,7 @@
   (so an ESC or 0x9b there starts a new sequence, anything else is ordinary text).
 
   `ordinary s` = the characters of `s` that are not part of any escape sequence, in order. Property C17 says
-  that `fmtstr` must keep every one of them.
+  that `fmtstr` must keep every one of them; `Aligned (marks s) s t` is the same requirement position by position.
 -/
 import Curtsies.Model.Basic
 namespace Curtsies.Spec
@@ -72,5 +72,13 @@ def ordinaryFrom : ScanSt → Text → Text
 
 def marks (s : Text) : List Bool := marksFrom .ground s
 def ordinary (s : Text) : Text := ordinaryFrom .ground s
+
+/-- Positional form of "only escape-sequence characters are removed": `Aligned ms s t` says that `t` is `s`
+    with some characters deleted, and every deleted character is one whose mark in `ms` is true (a kept
+    character may carry either mark: keeping part of an escape sequence loses nothing). -/
+inductive Aligned : List Bool → Text → Text → Prop
+  | nil : Aligned [] [] []
+  | keep (b : Bool) (c : Char) {ms : List Bool} {s t : Text} : Aligned ms s t → Aligned (b :: ms) (c :: s) (c :: t)
+  | drop (c : Char) {ms : List Bool} {s t : Text} : Aligned ms s t → Aligned (true :: ms) (c :: s) t
 
 end Curtsies.Spec
